@@ -147,6 +147,8 @@ class World:
         self.setup_log = []
         self.orphans = {}        # location -> (fam, digest id) of chunks uploaded by interrupted snapshots
         self.long_lived = False
+        self.one_object = False
+        self._shared_repo = None
         self._repos = {}
 
     # -- helpers
@@ -156,14 +158,20 @@ class World:
     def repo(self, backend=None, cache=None):
         return self.Repository(backend or self.backend, concurrent=self.concurrent, quiet=True, cache_directory=cache)
 
-    async def unlocked(self, user, backend=None, cache=None):
+    async def unlocked(self, user, backend=None, cache=None, fresh=False):
         # library use: one long-lived Repository object per user (the CLI makes a fresh one per command)
-        if getattr(self, 'long_lived', False) and backend is None and cache is None:
+        if getattr(self, 'long_lived', False) and backend is None and cache is None and not fresh:
             if user['name'] not in self._repos:
                 r = self.repo()
                 await r.unlock(password=user['password'], key=user['key'])
                 self._repos[user['name']] = r
             return self._repos[user['name']]
+        if getattr(self, 'one_object', False) and backend is None and cache is None and not fresh:
+            # library use: ONE Repository object, unlocked again with the credentials of whoever issues the command
+            if self._shared_repo is None:
+                self._shared_repo = self.repo()
+            await self._shared_repo.unlock(password=user['password'], key=user['key'])
+            return self._shared_repo
         r = self.repo(backend, cache)
         await r.unlock(password=user['password'], key=user['key'])
         return r
@@ -231,8 +239,8 @@ class World:
         return d, files
 
     # -- commands (each on a fresh Repository object, like a fresh process)
-    async def snapshot(self, user, src_dir, files, backend=None, note=None, record=True):
-        r = await self.unlocked(user, backend)
+    async def snapshot(self, user, src_dir, files, backend=None, note=None, record=True, fresh=False):
+        r = await self.unlocked(user, backend, fresh=fresh)
         calls = getattr(self.backend, 'calls', [])
         before = sum(1 for c in calls if c[0] == 'upload_stream')
         res = await r.snapshot(paths=list(src_dir) if isinstance(src_dir, (list, tuple)) else [src_dir], note=note)
@@ -374,7 +382,9 @@ def run_history(seed, scratch: Path, rep: Report, *, nops, weights, checks, conc
         encrypted = rng.random() < 0.75
     world = World(seed, encrypted, scratch, concurrent=concurrent, delay=delay, nusers=rng.choice([2, 3, 4]),
                   chunking=rng.choice([(16, 64), (8, 32), (32, 96)]))
-    world.long_lived = rng.random() < 0.3
+    mode_ = rng.random()
+    world.long_lived = mode_ < 0.25
+    world.one_object = 0.25 <= mode_ < 0.45
     segments = [[([], []), [], []]]      # [store0, model ops, observations]
     descr = []
     ops_model, observed = segments[0][1], segments[0][2]
@@ -461,10 +471,27 @@ def run_history(seed, scratch: Path, rep: Report, *, nops, weights, checks, conc
             for pw_ in (b'short-pw', b'H' * 64 + b'tail-one', b'H' * 100):
                 try:
                     src_ = world.users[0]
-                    rr = await world.unlocked(src_)
-                    res = await rr.add_key(password=pw_, settings={'encryption': {'kdf': dict(kdf)}}, shared=rng.random() < 0.5)
+                    rr = world.repo()
+                    await rr.unlock(password=src_['password'], key=src_['key'])
+                    printed_ = io.StringIO()
+                    with contextlib.redirect_stdout(printed_):
+                        res = await rr.add_key(password=pw_, settings={'encryption': {'kdf': dict(kdf)}}, shared=rng.random() < 0.5)
                 except Exception:
                     continue                      # this KDF does not accept such a password: nothing was produced
+                # the key as a user gets it from `replicat add-key > new.key`
+                text_ = printed_.getvalue().strip()
+                if text_:
+                    for bad in (pw_ + b'x', b'not-the-password', b''):
+                        try:
+                            await world.repo().unlock(password=bad, key=text_)
+                            viol('unlock', 'the key printed by add-key was unlocked by a wrong password', {'kdf': kdf['name'], 'via': 'stdout'})
+                            break
+                        except Exception:
+                            pass
+                    try:
+                        await world.repo().unlock(password=pw_, key=text_)
+                    except Exception as e:
+                        viol('unlock', f'the key printed by add-key does not open with its own password ({type(e).__name__})', {'kdf': kdf['name'], 'via': 'stdout'})
                 for bad in (pw_[:-1], pw_ + b'x', pw_[:64] + b'tail-two', pw_[:64], b'H' * 99 + b'I'):
                     if bad == pw_:
                         continue
@@ -546,7 +573,7 @@ def run_history(seed, scratch: Path, rep: Report, *, nops, weights, checks, conc
                 u2 = rng.choice(world.users)
                 d1, f1 = world.make_files(user['name'])
                 d2, f2 = (d1, f1) if rng.random() < 0.3 else world.make_files(u2['name'])
-                (r1, _), (r2, _) = await cmd(asyncio.gather(world.snapshot(user, d1, f1), world.snapshot(u2, d2, f2)), 'concurrent snapshots')
+                (r1, _), (r2, _) = await cmd(asyncio.gather(world.snapshot(user, d1, f1, fresh=True), world.snapshot(u2, d2, f2, fresh=True)), 'concurrent snapshots')
                 descr.append(['concurrent-snapshots', user['name'], u2['name']])
                 for u_, r_ in ((user, r1), (u2, r2)):
                     ops_model.append(('snap', u_['uid'], u_['fam'], world.snaps[r_.name]['sid'], [world.did(d) for d in r_.chunks]))
@@ -737,7 +764,7 @@ def run_history(seed, scratch: Path, rep: Report, *, nops, weights, checks, conc
     with quiet()[0], quiet()[1]:
         world = asyncio.run(go())
     rep.count('encrypted' if encrypted else 'unencrypted')
-    rep.count('long_lived_repository_objects' if world.long_lived else 'fresh_repository_per_command')
+    rep.count('long_lived_repository_objects' if world.long_lived else 'one_repository_object_re-unlocked' if world.one_object else 'fresh_repository_per_command')
     for d in descr:
         rep.count('op=' + d[0])
     rep.count('users=%d' % len(world.users))
